@@ -6,7 +6,7 @@ from ir import irsym
 
 _JOBS = None; _FN = None; _SIGS = None
 
-def run_jobs(chk, mod, native, jobs, info, quick, SIGS, tag, explanation=None, trusted_extra=()):
+def run_jobs(chk, mod, native, jobs, info, quick, SIGS, tag, explanation=None, trusted_extra=(), rule=None):
     global _SIGS
     _SIGS = SIGS
     budget = 60 if quick else 600
@@ -50,7 +50,7 @@ def run_jobs(chk, mod, native, jobs, info, quick, SIGS, tag, explanation=None, t
     validate_interpreter(chk, mod, native, jobs, SIGS)
     return chk.finish(
         explanation=explanation or 'Bounded symbolic check with my own IR symbolic executor (clang-14 IR of the real sources, z3 bit-vectors, region memory): for every shape profile in the bound all index values are symbolic; every path is explored, every memory access is bounds/liveness checked, heap blocks must be freed, and on every path z3 decides the definition of the operation.',
-        rule='one obligation = one property of one path of one shape profile (solver query pc && !property must be unsat); non-trivial = case with at least one discharged solver query',
+        rule=rule or 'one obligation = one property of one path of one shape profile (solver query pc && !property must be unsat); non-trivial = case with at least one discharged solver query',
         trusted=['clang-14 -O1 IR of the real sources (tested build uses g++-12)', 'irsym executor + region memory model (validated each run by concrete co-execution against an ASan native build)', 'z3 5.1.0 bit-vectors', 'oracles in the check script'] + list(trusted_extra))
 
 
